@@ -138,6 +138,12 @@ def make_body(spec):
 
 def run_bodies(c):
     b1, b2 = make_body(c["b1"]), make_body(c["b2"])
+    if c.get("warm") is not None:
+        # the judged call is not the first one on these objects: body 2 has been second argument before, then first
+        # argument against a third body (re-expressed in that body's frame), body 1 likewise
+        b3 = make_body(c["warm"])
+        for x, y, flag in ((b1, b2, False), (b2, b3, True), (b1, b3, False), (b3, b1, True)):
+            hc.find_contact_surface(x, y, use_aabb_trees=flag)
     cs = hc.find_contact_surface(b1, b2, use_aabb_trees=bool(c.get("use_aabb_trees", False)))
     w12, w21 = fo.accumulate_wrenches(cs, b1, b2)
     out = dict(intersection=bool(cs.intersection), w12=L(w12), w21=L(w21),
